@@ -125,7 +125,7 @@ Definition hc_rb_slice_key (i : info) (h : N) : N :=
 Definition hc_rb_slice_host_start (i : info) (h : N) : N :=
   N.land h (2 ^ 64 - 1 - (shl64 1 (cluster_shift i + rb_slice_index_shift i) - 1)).
 Definition hc_rb_slice_host_end (i : info) (h : N) : N :=
-  hc_rb_slice_host_start i h + shl32 (rb_slice_entries i) (cluster_shift i).
+  hc_rb_slice_host_start i h + shl64 (rb_slice_entries i) (cluster_shift i).
 Definition hc_rb_host_start (i : info) (h : N) : N :=
   N.land h (2 ^ 64 - 1 - (shl64 1 (cluster_shift i + rb_index_shift i) - 1)).
 Definition hc_rb_host_end (i : info) (h : N) : N :=
